@@ -10,6 +10,9 @@ INVARIANT SealedExportSealed
 INVARIANT SecondObjectFresh
 INVARIANT FullWidthReadBack
 INVARIANT FieldReadBack
+INVARIANT AltWidthReadBack
+INVARIANT AltViewsConsistent
 PROPERTY Frozen
 PROPERTY Local
+PROPERTY AltWidthLocal
 CHECK_DEADLOCK FALSE
